@@ -54,6 +54,15 @@ func sameExpr(a, b ssa.Value) bool {
 	}
 	ra, pa := accessPath(a)
 	rb, pb := accessPath(b)
+	// a helper's parameter stands for the argument of its single call
+	if ra != rb {
+		if r2, p2 := accessPath(bindParam(ra)); r2 != nil && bindParam(ra) != ra {
+			ra, pa = r2, append(append([]string{}, p2...), pa...)
+		}
+		if r2, p2 := accessPath(bindParam(rb)); r2 != nil && bindParam(rb) != rb {
+			rb, pb = r2, append(append([]string{}, p2...), pb...)
+		}
+	}
 	if len(pa) == 0 || len(pa) != len(pb) || ra != rb {
 		return false
 	}
